@@ -31,9 +31,9 @@ property exit 1{note}.
 for pid in sorted(by):
     L.append(f"| {pid} | " + ", ".join(n.split("-", 1)[1] for n in by[pid]) + " |")
 L.append(f"""
-### 12.2 Independently written breaking changes (`seeded/<property>-<a..m>/`)
+### 12.2 Independently written breaking changes (`seeded/<property>-<a..o>/`)
 
-{len(metas)} changes were written by fresh sub-agents in five rounds (a, b: first round; c, d: second round, where each
+{len(metas)} changes were written by fresh sub-agents in six rounds (a, b: first round; c, d: second round, where each
 agent was additionally told in one line each what the first round had done, so as to do something else, and was
 pushed towards multi-step and cross-feature conditions; e, f: third round, told about both earlier rounds and pushed
 towards changes in *other* modules than the obvious one - codecs, `config.py` identity and matching helpers, the send
@@ -41,8 +41,9 @@ path, session storage - and towards effects that need state accumulated over a l
 about all earlier ones and asked for lifecycle / ordering, aliasing / shared state, arithmetic / boundary and error-path
 changes; k, l: fifth round, asked for changes to shared infrastructure that break the property through an indirect
 path, changes that need several of something at once (peers, instances, connections, protocol objects in one process),
-a long history or a large value, or that rest on a wrong assumption about the event loop; g, j, m: spare changes some
-agents delivered on top). An agent got only the text of one property and a scratch
+a long history or a large value, or that rest on a wrong assumption about the event loop; n, o: sixth round, asked for
+one-to-five-line edits that break one corner of a dimension the property quantifies over, preferably one that needs a
+precise coincidence; g, j, m: spare changes some agents delivered on top). An agent got only the text of one property and a scratch
 worktree of `/repo` - nothing from `/verif`. Each change comes with `patch.diff`, a demonstration `demo.py` (passes on the
 unchanged tree, fails with the patch) and `meta.json`. `tools/try_seeded.py` re-confirmed all of that in a scratch
 worktree (demo both ways, unedited test suite green with the patch) and then ran the property's quick check against the
@@ -77,11 +78,15 @@ histories and malformed messages in front of good ones in a datagram; several po
 with bit 15 set; several connections per process; crowds of several hundred senders; SD messages and bursts
 beyond one 1400-byte datagram; options that change between the offers of one instance; 194 days of quiet; a second SD
 stack in the same process; IPv6 and IPv4-mapped callers; payloads in a thousand pieces; objects built before the loop
-runs; two instances
+runs; an operation a few loop iterations into the cascade an instant started; flag-clear session ids that repeat;
+link-local IPv6 peers told apart by the scope id; a TTL below the cyclic period; timings changed after construction;
+two instances
 sharing service and instance id; a lost StopOffer followed by a restart within the TTL; empty event values; messages
 with the unicast flag clear; peer restarts during the session-id soak; one endpoint in two eventgroups; type bytes
 with the TP bit). Each is now generated on purpose and most are reported as probes in the evidence.
-Three misses were not workload gaps: C17 had no liveness clause for cyclic rounds (`C17-h`), the runner ranked "other
+Some misses were not workload gaps: C17 accepted any payload value between trigger and transmission where the
+library sends the value of the transmission instant (`C17-n`), C12 let a restarted instance answer during its initial
+wait (`C12-l`), C17 had no liveness clause for cyclic rounds (`C17-h`), the runner ranked "other
 exceptions in most runs" above reproduced violations and exited 2 instead of 1 (`C11-h`), and library state shared
 between objects leaked from run to run inside a worker, so violations did not reproduce (`C18-h`; `lib.reset()` now
 restores every mutable class attribute and module global of the library before each run).
